@@ -416,3 +416,34 @@ V("C05-prior-aliased", ["C05", "C19"], "gmm", "            self.means = copy.dee
 V("C05-prior-crossed", ["C05"], "gmm", "            self.variances = copy.deepcopy(self.ubm.variances)\n            self.weights = copy.deepcopy(self.ubm.weights)\n        else:\n            logger.debug", "            self.variances = copy.deepcopy(self.ubm.variance_thresholds)\n            self.weights = copy.deepcopy(self.ubm.weights)\n        else:\n            logger.debug", "variances initialised from the prior's floors")
 V("C05-floors-after-variances", ["C05"], "gmm", "            self.variance_thresholds = copy.deepcopy(self.ubm.variance_thresholds)\n            self.variances = copy.deepcopy(self.ubm.variances)\n            self.weights = copy.deepcopy(self.ubm.weights)\n        else:\n            logger.debug", "            self.variances = copy.deepcopy(self.ubm.variances)\n            self.variance_thresholds = copy.deepcopy(self.ubm.variance_thresholds)\n            self.weights = copy.deepcopy(self.ubm.weights)\n        else:\n            logger.debug", "revert of fix 633f4cd (initialize_gaussians): variances before floors")
 V("C05-prior-copy-method", ["C05", "C19"], "gmm", "            self.means = copy.deepcopy(self.ubm.means)\n            self.variance_thresholds = copy.deepcopy(self.ubm.variance_thresholds)\n            self.variances = copy.deepcopy(self.ubm.variances)\n            self.weights = copy.deepcopy(self.ubm.weights)\n        else:\n            self.weights = np.full", "            self.means = self.ubm.means.copy()\n            self.variance_thresholds = copy.deepcopy(self.ubm.variance_thresholds)\n            self.variances = copy.deepcopy(self.ubm.variances)\n            self.weights = copy.deepcopy(self.ubm.weights)\n        else:\n            self.weights = np.full", ".copy() instead of deepcopy", kind="benign")
+
+# ----------------------------------------------------------------------------- C20
+V("C20-unpack-swapped", ["C20", "C13"], "gmm", "            self.variances, self.weights = kmeans_machine.get_variances_and_weights_for_each_cluster(data)", "            self.weights, self.variances = kmeans_machine.get_variances_and_weights_for_each_cluster(data)", "variances and weights unpacked in the wrong order")
+V("C20-return-swapped", ["C20"], "kmeans", "    return (variances, weights)\n\nclass KMeansMachine", "    return (weights, variances)\n\nclass KMeansMachine", "callee returns (weights, variances)")
+V("C20-weights-by-clusters", ["C20", "C13"], "kmeans", "weights = weights_count / weights_count.sum()", "weights = weights_count / len(weights_count)", "weights = count / number of clusters")
+V("C20-variance-mean-unsquared", ["C20", "C15"], "kmeans", "variances = variances_sum / weights_count[:, None] - means ** 2", "variances = variances_sum / weights_count[:, None] - means", "mean subtracted unsquared")
+V("C20-variance-plus", ["C20"], "kmeans", "variances = variances_sum / weights_count[:, None] - means ** 2", "variances = variances_sum / weights_count[:, None] + means ** 2", "squared mean added")
+V("C20-dask-distance-unsquared", ["C20", "C15", "C04"], "kmeans", "distances.append(np.sum((means[i] - x) ** 2, axis=-1))", "distances.append(np.sqrt(np.sum((means[i] - x) ** 2, axis=-1)))", "Dask arm returns Euclidean, SciPy arm squared Euclidean distances")
+V("C20-cdist-euclidean", ["C20", "C15", "C04"], "kmeans", "return scipy.spatial.distance.cdist(means, x, metric='sqeuclidean')", "return scipy.spatial.distance.cdist(means, x, metric='euclidean')", "SciPy arm returns unsquared distances")
+V("C20-cdist-transposed", ["C20", "C04"], "kmeans", "return scipy.spatial.distance.cdist(means, x, metric='sqeuclidean')", "return scipy.spatial.distance.cdist(x, means, metric='sqeuclidean')", "SciPy arm returns (samples, clusters)")
+V("C20-dask-sum-axis0", ["C20", "C04"], "kmeans", "distances.append(np.sum((means[i] - x) ** 2, axis=-1))", "distances.append(np.sum((means[i] - x) ** 2, axis=0))", "Dask arm sums over the samples")
+V("C20-means-aliased", ["C20", "C19"], "gmm", "self.means = copy.deepcopy(kmeans_machine.centroids_)", "self.means = kmeans_machine.centroids_", "GMM means alias the k-means centroids")
+V("C20-sq-partial-mean", ["C20", "C04"], "kmeans", "variances_sum[i] = np.sum(data[closest_centroid_indices == i] ** 2, axis=0)", "variances_sum[i] = np.mean(data[closest_centroid_indices == i] ** 2, axis=0)", "per-block mean of squares summed over blocks")
+V("C20-fold-first-block", ["C20", "C04"], "kmeans", "    means_sum = [s[1] for s in stats]", "    means_sum = [s[1] for s in stats[:1]]", "first-order sums of the first block only")
+V("C20-other-data", ["C20"], "gmm", "self.variances, self.weights = kmeans_machine.get_variances_and_weights_for_each_cluster(data)", "self.variances, self.weights = kmeans_machine.get_variances_and_weights_for_each_cluster(data[:len(data) // 2])", "cluster statistics from half of the data")
+V("C20-vectorised-distance", ["C20"], "kmeans", "        distances = []\n        for i in range(means.shape[0]):\n            distances.append(np.sum((means[i] - x) ** 2, axis=-1))\n        return da.vstack(distances)", "        return da.sum((means[:, None, :] - x[None, :, :]) ** 2, axis=-1)", "Dask arm vectorised by broadcasting", kind="benign")
+
+# ----------------------------------------------------------------------------- C10
+V("C10-fnorm-plus", ["C10"], "ivector", "    fnorm = stats.sum_px - stats.n[:, None] * ubm_means", "    fnorm = stats.sum_px + stats.n[:, None] * ubm_means", "N m added in the projection's linear term")
+V("C10-estep-fnorm-plus", ["C10"], "ivector", "        Fnorm = Fij - Nij[:, None] * machine.ubm.means", "        Fnorm = Fij + Nij[:, None] * machine.ubm.means", "N m added in the E-step's Fnorm")
+V("C10-fnorm-unweighted", ["C10", "C15"], "ivector", "    fnorm = stats.sum_px - stats.n[:, None] * ubm_means", "    fnorm = stats.sum_px - ubm_means", "UBM mean not weighted by the counts", kind="break")
+V("C10-snorm-cross-plus", ["C10"], "ivector", "Snorm = Sij - 2 * Fij * machine.ubm.means + Nij[:, None] * machine.ubm.means * machine.ubm.means", "Snorm = Sij + 2 * Fij * machine.ubm.means + Nij[:, None] * machine.ubm.means * machine.ubm.means", "cross term of Snorm added")
+V("C10-sigma-squared", ["C10", "C15"], "ivector", "Tct_sigmacInv = T.transpose(0, 2, 1) / sigma[:, None, :]", "Tct_sigmacInv = T.transpose(0, 2, 1) / sigma[:, None, :] ** 2", "T' divided by sigma^2")
+V("C10-sigma-multiplied", ["C10", "C15"], "ivector", "Tct_sigmacInv = T.transpose(0, 2, 1) / sigma[:, None, :]", "Tct_sigmacInv = T.transpose(0, 2, 1) * sigma[:, None, :]", "T' multiplied by sigma")
+V("C10-project-ubm-variances", ["C10"], "ivector", "return np.linalg.solve(compute_id_tt_sigma_inv_t(stats, self.T, self.sigma), compute_tt_sigma_inv_fnorm(self.ubm.means, stats, self.T, self.sigma))", "return np.linalg.solve(compute_id_tt_sigma_inv_t(stats, self.T, self.ubm.variances), compute_tt_sigma_inv_fnorm(self.ubm.means, stats, self.T, self.sigma))", "projection uses the UBM variances instead of the trained sigma in the precision")
+V("C10-prior-dropped", ["C10"], "ivector", "output = np.eye(dim_t, dim_t) + np.einsum('c,ctu->tu', stats.n, tct_sigmac_inv_tc)", "output = np.einsum('c,ctu->tu', stats.n, tct_sigmac_inv_tc)", "identity (prior precision) dropped: ML estimate instead of the posterior mean")
+V("C10-precision-unweighted", ["C10"], "ivector", "output = np.eye(dim_t, dim_t) + np.einsum('c,ctu->tu', stats.n, tct_sigmac_inv_tc)", "output = np.eye(dim_t, dim_t) + tct_sigmac_inv_tc.sum(axis=0)", "precision not weighted by the counts")
+V("C10-second-moment-no-cov", ["C10"], "ivector", "sigma_w_ij2 = I_TtSigmaInvNT_inv + np.outer(sigma_w_ij, sigma_w_ij)", "sigma_w_ij2 = np.outer(sigma_w_ij, sigma_w_ij)", "posterior covariance dropped from E[ww']")
+V("C10-project-not-solved", ["C10"], "ivector", "return np.linalg.solve(compute_id_tt_sigma_inv_t(stats, self.T, self.sigma), compute_tt_sigma_inv_fnorm(self.ubm.means, stats, self.T, self.sigma))", "return compute_tt_sigma_inv_fnorm(self.ubm.means, stats, self.T, self.sigma)", "projection returns the linear term without solving")
+V("C10-project-inv-form", ["C10"], "ivector", "return np.linalg.solve(compute_id_tt_sigma_inv_t(stats, self.T, self.sigma), compute_tt_sigma_inv_fnorm(self.ubm.means, stats, self.T, self.sigma))", "return np.linalg.inv(compute_id_tt_sigma_inv_t(stats, self.T, self.sigma)) @ compute_tt_sigma_inv_fnorm(self.ubm.means, stats, self.T, self.sigma)", "inverse times linear term", kind="benign")
+V("C10-accumulate-fnorm-transposed", ["C10"], "ivector", "np.matmul(Fnorm[:, :, None], sigma_w_ij[None, :])", "np.matmul(Fnorm[:, :, None], np.ones_like(sigma_w_ij)[None, :])", "Fnorm E[w]' accumulator loses E[w]")
